@@ -383,16 +383,119 @@ impl Family for Exhaustive32 {
     }
 }
 
+/// The bytes of a value must not depend on what was encoded before it on the same thread (the
+/// binary twin of C06's seam histories): every ordered pair over a palette of (value, column)
+/// pairs - bit twins of different Rust types and signedness in columns of every width - the first
+/// encoded into a good or a failing writer, the second into a fresh buffer; its bytes (or its
+/// refusal) must be what a thread that never encoded anything else produces.
+struct BinSeamHistories {
+    pal: Vec<(Val, Column)>,
+    fresh: Vec<Option<Vec<u8>>>,
+}
+impl BinSeamHistories {
+    fn new() -> Self {
+        let c = |t: ColumnType, u: bool| col("c", t, if u { ColumnFlags::UNSIGNED_FLAG } else { ColumnFlags::empty() });
+        use ColumnType::*;
+        let pal: Vec<(Val, Column)> = vec![
+            (Val::I8(-1), c(MYSQL_TYPE_TINY, false)),
+            (Val::U8(255), c(MYSQL_TYPE_TINY, true)),
+            (Val::I16(-1), c(MYSQL_TYPE_SHORT, false)),
+            (Val::U16(65535), c(MYSQL_TYPE_SHORT, true)),
+            (Val::I32(-1), c(MYSQL_TYPE_LONG, false)),
+            (Val::U32(u32::MAX), c(MYSQL_TYPE_LONG, true)),
+            (Val::I64(-1), c(MYSQL_TYPE_LONGLONG, false)),
+            (Val::U64(u64::MAX), c(MYSQL_TYPE_LONGLONG, true)),
+            (Val::I64(i64::MIN), c(MYSQL_TYPE_LONGLONG, false)),
+            (Val::U64(1 << 63), c(MYSQL_TYPE_LONGLONG, true)),
+            (Val::Isize(-1), c(MYSQL_TYPE_LONGLONG, false)),
+            (Val::Usize(usize::MAX), c(MYSQL_TYPE_LONGLONG, true)),
+            (Val::I8(-1), c(MYSQL_TYPE_LONGLONG, false)),
+            (Val::U8(255), c(MYSQL_TYPE_LONGLONG, true)),
+            (Val::I32(7), c(MYSQL_TYPE_LONG, false)),
+            (Val::I32(7), c(MYSQL_TYPE_LONGLONG, false)),
+            (Val::U8(7), c(MYSQL_TYPE_SHORT, true)),
+            (Val::I64(1 << 40), c(MYSQL_TYPE_LONG, false)), // refused
+            (Val::U64(u64::MAX), c(MYSQL_TYPE_LONGLONG, false)), // refused
+            (Val::F32(1.0), c(MYSQL_TYPE_FLOAT, false)),
+            (Val::U32(1.0f32.to_bits()), c(MYSQL_TYPE_LONG, true)),
+            (Val::F64(1.0), c(MYSQL_TYPE_DOUBLE, false)),
+            (Val::U64(1.0f64.to_bits()), c(MYSQL_TYPE_LONGLONG, true)),
+            (Val::Str("7".into()), c(MYSQL_TYPE_VAR_STRING, false)),
+            (Val::Bytes(vec![0xfb, 0x37]), c(MYSQL_TYPE_BLOB, false)),
+        ];
+        let fresh = pal
+            .iter()
+            .map(|(v, c)| {
+                let (v, c) = (v.clone(), c.clone());
+                std::thread::spawn(move || {
+                    let mut out = Vec::new();
+                    match guarded(|| v.to_mysql_bin(&mut out, &c)) {
+                        Ok(Ok(())) => Some(out),
+                        _ => None,
+                    }
+                })
+                .join()
+                .unwrap_or(None)
+            })
+            .collect();
+        BinSeamHistories { pal, fresh }
+    }
+}
+impl Family for BinSeamHistories {
+    fn name(&self) -> String {
+        "binary-encoding-histories-at-the-seam".into()
+    }
+    fn len(&self) -> u64 {
+        (self.pal.len() * self.pal.len() * 2) as u64
+    }
+    fn run(&self, idx: u64, st: &mut Stats) -> Result<(), Violation> {
+        let n = self.pal.len() as u64;
+        let d = digits(idx, &[n, n, 2]);
+        let ((x, cx), (y, cy), failing) = (&self.pal[d[0] as usize], &self.pal[d[1] as usize], d[2] == 1);
+        st.nontrivial += 1;
+        st.bump("seam_histories");
+        let r = guarded(|| {
+            if failing {
+                let mut none: [u8; 0] = [];
+                let _ = x.to_mysql_bin(&mut &mut none[..], cx);
+            } else {
+                let mut sink = Vec::new();
+                let _ = x.to_mysql_bin(&mut sink, cx);
+            }
+            let mut out = Vec::new();
+            y.to_mysql_bin(&mut out, cy).ok().map(|_| out)
+        });
+        let what = format!("{} into {:?}{} encoded after {} into {:?}{}{}", val_short(y), cy.coltype, if cy.colflags.contains(ColumnFlags::UNSIGNED_FLAG) { " UNSIGNED" } else { "" }, val_short(x), cx.coltype, if cx.colflags.contains(ColumnFlags::UNSIGNED_FLAG) { " UNSIGNED" } else { "" }, if failing { " (whose writer failed)" } else { "" });
+        let got = match r {
+            Err((l, m)) => {
+                // a panic counts as a refusal (as everywhere in this check)
+                let _ = (l, m);
+                None
+            }
+            Ok(o) => o,
+        };
+        if got != self.fresh[d[1] as usize] {
+            return Err(Violation::new("bytes-depend-on-history", format!("{}: {:02x?}, on a thread that encoded nothing before {:02x?}", what, got, self.fresh[d[1] as usize])));
+        }
+        Ok(())
+    }
+    fn describe(&self, idx: u64) -> J {
+        let n = self.pal.len() as u64;
+        let d = digits(idx, &[n, n, 2]);
+        json!({"first": val_short(&self.pal[d[0] as usize].0), "first_writer_fails": d[2] == 1, "then": val_short(&self.pal[d[1] as usize].0), "then_column": format!("{:?}", self.pal[d[1] as usize].1.coltype)})
+    }
+}
+
 pub fn build(quick: bool) -> Check {
     Check {
         id: "C15",
         level: "model_checking",
-        rule: "all pairs (Rust type in {u8,i8,u16,i16,u32,i32,u64,i64,usize,isize, Value::Int, Value::UInt}) x (column in {TINY,SHORT,YEAR,INT24,LONG,LONGLONG} x {signed,unsigned} x 5 sets of other flags (none, ZEROFILL, NOT NULL|PRI KEY|AUTO_INCREMENT, BINARY|NUM|PART KEY, every flag but UNSIGNED)); values exhaustive for 8- and 16-bit types, otherwise every +-2^k, +-2^k+-1, type bounds and every column bound +-1; driven at the public to_mysql_bin seam, and through write_col/run_on with neighbouring cells. Oracle: bytes decoded by the column's width and signedness; accepted => decoded == written and width == column width; fixed-width type contained in the column => accepted; pointer-sized => accepted iff the value fits; a panic counts as a refusal and is tallied. Values in context: every sequence of <= 3 (thorough: 4) events on one connection (rows of other shapes incl. all-NULL / alternating NULLs / 300- and 70000-byte cells, a refused cell, a new resultset behind finish_one with the same or other columns, behind a completion, behind a zero-column set, a new command in the same or the other protocol, finish_error) followed by a probe row of characteristic values for nine column types; every row of the conversation must decode cell for cell to what was written. Non-trivial = a value the column cannot represent.".into(),
+        rule: "all pairs (Rust type in {u8,i8,u16,i16,u32,i32,u64,i64,usize,isize, Value::Int, Value::UInt}) x (column in {TINY,SHORT,YEAR,INT24,LONG,LONGLONG} x {signed,unsigned} x 5 sets of other flags (none, ZEROFILL, NOT NULL|PRI KEY|AUTO_INCREMENT, BINARY|NUM|PART KEY, every flag but UNSIGNED)); values exhaustive for 8- and 16-bit types, otherwise every +-2^k, +-2^k+-1, type bounds and every column bound +-1; driven at the public to_mysql_bin seam, and through write_col/run_on with neighbouring cells. Oracle: bytes decoded by the column's width and signedness; accepted => decoded == written and width == column width; fixed-width type contained in the column => accepted; pointer-sized => accepted iff the value fits; a panic counts as a refusal and is tallied. Encoding histories at the seam: every ordered pair over 25 (value, column) pairs (bit twins of different Rust types and signedness, values that must be refused, floats, strings), the first encoded into a good or a failing writer; the second's bytes or refusal must be what a thread that never encoded anything else produces. Values in context: every sequence of <= 3 (thorough: 4) events on one connection (rows of other shapes incl. all-NULL / alternating NULLs / 300- and 70000-byte cells, a refused cell, a new resultset behind finish_one with the same or other columns, behind a completion, behind a zero-column set, a new command in the same or the other protocol, finish_error) followed by a probe row of characteristic values for nine column types; every row of the conversation must decode cell for cell to what was written. Non-trivial = a value the column cannot represent.".into(),
         assumptions: vec!["32/64-bit value domains are covered at boundary lattices".into()],
         bounds: json!({"types": 12, "columns": 12}),
         exhaustive: true,
         caps_hit: vec![],
-        families: if quick { vec![Box::new(Matrix { tys: types() }), Box::new(ThroughRows), Box::new(super::c07::MixedRows), Box::new(super::aftermath::Aftermath { prop: "C15" }), Box::new(super::context::ContextWalks { prop: "C15", depth: 2, start_bin: true }), Box::new(super::context::ContextWalks { prop: "C15", depth: 3, start_bin: true })] } else { vec![Box::new(Matrix { tys: types() }), Box::new(ThroughRows), Box::new(Exhaustive32), Box::new(super::c07::MixedRows), Box::new(super::aftermath::Aftermath { prop: "C15" }), Box::new(super::context::ContextWalks { prop: "C15", depth: 2, start_bin: true }), Box::new(super::context::ContextWalks { prop: "C15", depth: 3, start_bin: true })] },
-        required: vec!["context_walks", "columns_with_other_flags", "mixed_rows", "aftermath_recovered", "accepted", "refused", "rows_accepted", "rows_refused"],
+        families: if quick { vec![Box::new(Matrix { tys: types() }), Box::new(ThroughRows), Box::new(super::c07::MixedRows), Box::new(super::aftermath::Aftermath { prop: "C15" }), Box::new(BinSeamHistories::new()), Box::new(super::context::ContextWalks { prop: "C15", depth: 2, start_bin: true }), Box::new(super::context::ContextWalks { prop: "C15", depth: 3, start_bin: true })] } else { vec![Box::new(Matrix { tys: types() }), Box::new(ThroughRows), Box::new(Exhaustive32), Box::new(super::c07::MixedRows), Box::new(super::aftermath::Aftermath { prop: "C15" }), Box::new(BinSeamHistories::new()), Box::new(super::context::ContextWalks { prop: "C15", depth: 2, start_bin: true }), Box::new(super::context::ContextWalks { prop: "C15", depth: 3, start_bin: true })] },
+        required: vec!["seam_histories", "context_walks", "columns_with_other_flags", "mixed_rows", "aftermath_recovered", "accepted", "refused", "rows_accepted", "rows_refused"],
     }
 }
